@@ -99,12 +99,12 @@ func (c *chunkConn) Write(p []byte) (int, error) {
 		if k > len(p) {
 			k = len(p)
 		}
+		// logged BEFORE the hand-over: everything the peer can have received is in the log when it is inspected
+		// (a failed last write leaves at most a few undelivered bytes at the tail of the log)
+		c.logMu.Lock()
+		c.wire = append(c.wire, p[:k]...)
+		c.logMu.Unlock()
 		n, err := c.Conn.Write(p[:k])
-		if n > 0 {
-			c.logMu.Lock()
-			c.wire = append(c.wire, p[:n]...)
-			c.logMu.Unlock()
-		}
 		total += n
 		if err != nil {
 			return total, err
@@ -275,17 +275,18 @@ type chanPlan struct {
 func run(c *vf.Ctx) {
 	c.Assume("amino packet encoding is a trusted primitive (the wire oracle decodes with it); net.Pipe is the byte transport")
 	c.Assume("PacketMsg.EOF is documented as '1 means message ends here': other values are treated as 'message continues' by the implementation; the raw-packet oracle only forbids deliveries that are not a whole run of packets ending at a packet with EOF != 0")
-	c.Assume("pong timeouts are wall-clock behaviour: a run that ends with a 'pong timeout' error is counted inconclusive, not violated")
+	c.Assume("pong timeouts are wall-clock behaviour: a paced ping run that ends with a 'pong timeout' error is discarded and counted (pong_timeouts_under_load_discarded_runs); at least 4 ping runs must complete")
 	pairs(c)
 	flushStop(c)
 	rawScripts(c)
 
-	c.RequireCounter("pair_connections", int64(c.N(40, 300)))
+	c.RequireCounter("pair_connections", int64(c.N(36, 300)))
 	c.RequireCounter("messages_delivered", int64(c.N(5000, 40000)))
 	c.RequireCounter("multi_packet_messages", 1000)
 	c.RequireCounter("boundary_size_messages", 500)
 	c.RequireCounter("exact_capacity_messages", 40)
 	c.RequireCounter("trysend_rejections", 10)
+	c.RequireCounter("ping_runs", 4)
 	c.RequireCounter("wire_ping_packets", 3)
 	c.RequireCounter("wire_pong_packets", 3)
 	c.RequireCounter("wire_packets_parsed", 10000)
@@ -300,7 +301,7 @@ func run(c *vf.Ctx) {
 // ---------------------------------------------------------------- (1) pairs
 
 func pairs(c *vf.Ctx) {
-	n := c.N(48, 320)
+	n := c.N(40, 320)
 	c.Parallel(n, 8, 1000, func(i int, r *rand.Rand) { runPair(c, i, r, false) })
 	// ping/pong runs: sparse paced traffic on an otherwise idle connection, so that pings interleave with
 	// message packets and a pong is never queued behind a long backlog (its timeout is wall-clock)
@@ -345,7 +346,7 @@ func runPair(c *vf.Ctx, i int, r *rand.Rand, pings bool) {
 			slow = 64
 		}
 		maxChunk := []int{3, 64, 1500, 4096}[r.IntN(4)]
-		if P >= 333 && maxChunk < 64 {
+		if P >= 64 && maxChunk < 64 {
 			maxChunk = 64 // megabytes through 3-byte chunks take tens of seconds under the race detector
 		}
 		if pings {
@@ -369,7 +370,6 @@ func runPair(c *vf.Ctx, i int, r *rand.Rand, pings bool) {
 				plans[d] = append(plans[d], pl)
 			}
 		}
-		t0 := time.Now()
 		for d := 0; d < 2; d++ {
 			if err := sides[d].m.Start(); err != nil {
 				panic(err)
@@ -416,7 +416,7 @@ func runPair(c *vf.Ctx, i int, r *rand.Rand, pings bool) {
 										sendFail.Store(fmt.Sprintf("TrySend on channel %X: connection stopped", pl.id))
 										return
 									}
-									time.Sleep(50 * time.Microsecond)
+									time.Sleep(200 * time.Microsecond)
 								}
 							} else {
 								// documented: Send blocks until queued "or until the request times out" (10 s): false = not queued, retry
@@ -475,17 +475,9 @@ func runPair(c *vf.Ctx, i int, r *rand.Rand, pings bool) {
 		for d := range sides {
 			for _, e := range errsBefore[d] {
 				if strings.Contains(e.Error(), "pong timeout") {
-					c.Count("pong_timeouts_under_load", 1)
-					for _, sd := range sides {
-						wb := sd.cc.wireCopy()
-						rc, es := sd.snapshot()
-						nr := 0
-						for _, v := range rc {
-							nr += len(v)
-						}
-						c.Logf("DEBUG pong timeout %s: side %s P=%d ping=%v pong=%v interval=%v elapsed=%v wire=%dB pings=%d pongs=%d received=%d errs=%v", tag, sd.name, P, cfg.PingInterval, cfg.PongTimeout, cfg.PingInterval, time.Since(t0), len(wb), bytes.Count(wb, pingBytes), bytes.Count(wb, pongBytes), nr, es)
-					}
-					c.Inconclusive("pong timeout under load in " + tag)
+					// wall-clock behaviour of the protocol (the pong did not make it within PongTimeout on this loaded box):
+					// the run is discarded; the coverage requirement below asks for enough completed ping runs
+					c.Count("pong_timeouts_under_load_discarded_runs", 1)
 					return
 				}
 			}
